@@ -266,7 +266,7 @@ func (h *Handler) Serve(ctx context.Context, conn *websocket.Conn) {
 	}
 	ctx, cancel := context.WithCancel(ctx)
 	var err error
-	var received chan struct{}
+	var received, sent chan struct{}
 	defer func() {
 		cancel()
 		if e := recover(); e != nil {
@@ -277,10 +277,13 @@ func (h *Handler) Serve(ctx context.Context, conn *websocket.Conn) {
 		}
 		h.onClose(conn)
 		conn.Close()
-		// the reader belongs to the server again once Serve returns
-		// (fasthttp recycles it), so wait until receive has left it.
+		// the connection belongs to the server again once Serve returns
+		// (fasthttp recycles it), so wait until receive and send have left it.
 		if received != nil {
 			<-received
+		}
+		if sent != nil {
+			<-sent
 		}
 	}()
 	queue := make(chan data)
@@ -290,7 +293,11 @@ func (h *Handler) Serve(ctx context.Context, conn *websocket.Conn) {
 		defer close(received)
 		h.receive(ctx, conn, queue, errChan)
 	}()
-	go h.send(ctx, conn, queue, errChan)
+	sent = make(chan struct{})
+	go func() {
+		defer close(sent)
+		h.send(ctx, conn, queue, errChan)
+	}()
 	select {
 	case <-ctx.Done():
 		err = ctx.Err()
